@@ -1,5 +1,6 @@
 \* C15: validation of the outputs of real PRF / PermutationFromPRF evaluations against one function table
 CONSTANT HistLen = 4
+CONSTANT GenLevel = 1
 SPECIFICATION TraceSpec
 INVARIANT TraceOK
 CHECK_DEADLOCK FALSE
